@@ -258,6 +258,7 @@ func runC26(w *World, r *Report) {
 	}
 
 	// ---- R-C26-4 the native-call marshaller honours the flag
+	r.Rule("R-C26-6", "in the native-call marshaller the rewrite of a Sandboxed parameter does not depend on the text of the argument: no branch that dominates the sandboxName call tests the path value", 1)
 	r.Rule("R-C26-4", "the native-call marshaller confines a string argument whenever its parameter is declared Sandboxed: every branch on data.Parameter.Sandboxed in package bytecode calls sandboxName on its true edge", 1)
 
 	if bp := w.pkg("internal/language/bytecode"); bp == nil {
@@ -311,6 +312,38 @@ func runC26(w *World, r *Report) {
 					r.Discharge("R-C26-4", key, w.pos(ifi.Pos()), "sandboxName applied when the parameter is Sandboxed")
 				} else {
 					r.Violate("R-C26-4", key, w.pos(ifi.Pos()), "a parameter declared Sandboxed is passed to the native function without sandboxName")
+				}
+
+				// R-C26-6: whether the argument is confined does not depend on what the argument says
+				for _, in := range b.Succs[0].Instrs {
+					c, ok := in.(*ssa.Call)
+					if !ok {
+						continue
+					}
+
+					if cf := calleeFunction(c.Common()); cf == nil || cf.Name() != "sandboxName" || len(c.Call.Args) == 0 {
+						continue
+					}
+
+					path := c.Call.Args[len(c.Call.Args)-1]
+					key6 := fnKey(fn) + "|confinement independent of the path text"
+					bad := ""
+
+					involves := func(v ssa.Value) bool {
+						return v != nil && (v == path || derivesFrom(v, func(s ssa.Value) bool { return s == path }, func(string) bool { return true }))
+					}
+
+					for _, f := range dominatingFacts(c.Block()) {
+						if involves(f.V) || involves(f.X) || involves(f.Y) {
+							bad = f.Kind
+						}
+					}
+
+					if bad != "" {
+						r.Violate("R-C26-6", key6, w.pos(c.Pos()), "the rewrite of a Sandboxed parameter is skipped for some texts of the argument (a test of the path value guards it): for such a text the native function receives the program's own string, and what that string means is up to the function — os.CreateTemp(\"\", …) creates its file in the system's temporary directory, outside the sandbox root")
+					} else {
+						r.Discharge("R-C26-6", key6, w.pos(c.Pos()), "no test of the path value guards the rewrite")
+					}
 				}
 			}
 		}
